@@ -64,6 +64,7 @@ type c19Fixture struct {
 	breqs          []batch.Request
 	vals           []types.Value
 	vStrict, vPerm *validate.Validator
+	dyn            *c19Dyn // the dynamic-operand workload (c19_dyn.go)
 }
 
 const c19SchemaText = `
@@ -95,6 +96,19 @@ func c19NewFixture(rng *rand.Rand, nPol, nReq, nVal int) *c19Fixture {
 		a := g.Policy(2 + rng.Intn(3))
 		a.Position = ast.Position{Filename: "gen", Offset: 10 * i, Line: i + 1, Column: 1}
 		ip := vh.MkPolicy(fmt.Sprintf("g%d", i), a)
+		f.pols = append(f.pols, ip)
+		f.ps.Add(ip.ID, ip.P)
+		f.plist = append(f.plist, ip.P)
+		f.ids = append(f.ids, ip.ID)
+	}
+	{
+		// an action scope whose entity list has SPARE CAPACITY and names an action group with members in c19SchemaText:
+		// code that appends to the list it was handed (instead of copying) writes into the policy's backing array
+		spare := make([]types.EntityUID, 0, 8)
+		spare = append(spare, types.NewEntityUID("Action", "g"), types.NewEntityUID("Action", "b"))
+		a := &ast.Policy{Effect: ast.EffectPermit, Principal: ast.ScopeTypeAll{}, Action: ast.ScopeTypeInSet{Entities: spare}, Resource: ast.ScopeTypeAll{},
+			Position: ast.Position{Filename: "gen", Offset: 10 * nPol, Line: nPol + 1, Column: 1}}
+		ip := vh.MkPolicy("spare", a)
 		f.pols = append(f.pols, ip)
 		f.ps.Add(ip.ID, ip.P)
 		f.plist = append(f.plist, ip.P)
@@ -165,6 +179,7 @@ func c19NewFixture(rng *rand.Rand, nPol, nReq, nVal int) *c19Fixture {
 			f.vPerm = validate.New(rs, validate.WithPermissive())
 		}
 	}
+	f.dyn = c19NewDyn(rng, f.em, f.uids, 16)
 	return f
 }
 
@@ -327,6 +342,9 @@ func (f *c19Fixture) reflectParts() []c19Part {
 		{"reflect:batch-requests", c19DumpOf(f.breqs)},
 		{"reflect:values", c19DumpOf(f.vals)},
 		{"reflect:validators", c19DumpOf([]*validate.Validator{f.vStrict, f.vPerm})},
+		{"reflect:dynamic-policyset", c19DumpOf(f.dyn.ps)},
+		{"reflect:dynamic-requests", c19DumpOf(f.dyn.reqs)},
+		{"reflect:dynamic-batch-requests", c19DumpOf(f.dyn.breqs)},
 	}
 }
 
@@ -560,7 +578,25 @@ type c19BatchRaw struct {
 	items []c19BatchItem
 }
 
-func c19Ops() []c19Op {
+func c19ShowBatch(x any) string {
+	r := x.(c19BatchRaw)
+	var lines []string
+	for _, it := range r.items {
+		var vs []string
+		for n, v := range it.values {
+			vs = append(vs, string(n)+"="+vh.ShowValue(v))
+		}
+		sort.Strings(vs)
+		lines = append(lines, vh.ShowValue(it.req.Principal)+"|"+vh.ShowValue(it.req.Action)+"|"+vh.ShowValue(it.req.Resource)+"|"+vh.ShowValue(it.req.Context)+
+			" "+strings.Join(vs, ",")+" -> "+vh.ShowAuthz(cedar.Decision(it.dec), cedar.Diagnostic(it.diag)))
+	}
+	sort.Strings(lines)
+	return showErr(r.err) + "\n" + strings.Join(lines, "\n")
+}
+
+func c19Ops() []c19Op { return append(c19BaseOps(), c19DynOps()...) }
+
+func c19BaseOps() []c19Op {
 	nReq := func(f *c19Fixture) int { return len(f.reqs) }
 	nPol := func(f *c19Fixture) int { return len(f.pols) }
 	nVal := func(f *c19Fixture) int { return len(f.vals) }
@@ -597,21 +633,7 @@ func c19Ops() []c19Op {
 				return nil
 			})
 			return r
-		}, func(x any) string {
-			r := x.(c19BatchRaw)
-			var lines []string
-			for _, it := range r.items {
-				var vs []string
-				for n, v := range it.values {
-					vs = append(vs, string(n)+"="+vh.ShowValue(v))
-				}
-				sort.Strings(vs)
-				lines = append(lines, vh.ShowValue(it.req.Principal)+"|"+vh.ShowValue(it.req.Action)+"|"+vh.ShowValue(it.req.Resource)+"|"+vh.ShowValue(it.req.Context)+
-					" "+strings.Join(vs, ",")+" -> "+vh.ShowAuthz(cedar.Decision(it.dec), cedar.Diagnostic(it.diag)))
-			}
-			sort.Strings(lines)
-			return showErr(r.err) + "\n" + strings.Join(lines, "\n")
-		}},
+		}, c19ShowBatch},
 		{"PolicySet.MarshalCedar", one, func(f *c19Fixture, _ int) any { return c19BytesRaw{b: f.ps.MarshalCedar()} }, showBytesRaw},
 		{"PolicySet.MarshalJSON", one, func(f *c19Fixture, _ int) any { b, err := f.ps.MarshalJSON(); return c19BytesRaw{b: b, err: err} }, showBytesRaw},
 		{"PolicyList.MarshalCedar", one, func(f *c19Fixture, _ int) any { return c19BytesRaw{b: f.plist.MarshalCedar()} }, showBytesRaw},
@@ -864,6 +886,12 @@ func c19Immutability(c *vh.Ctx, f *c19Fixture, round int) {
 					d += "+errors"
 				}
 				c.Dist(d)
+			case "cedar.Authorize(dynamic operands)":
+				c.Dist("dynamic-authorize:" + strings.SplitN(r1, " ", 2)[0])
+				if !strings.HasSuffix(r1, "errors=[]") {
+					c.Dist("dynamic-authorize:with-erroring-policies")
+				}
+				c.Res.Distribution["dynamic-authorize:satisfied-policies"] += strings.Count(strings.SplitN(r1, "errors=", 2)[0], "@")
 			case "batch.Authorize":
 				c.Dist(fmt.Sprintf("batch:%d-results", strings.Count(r1, " -> ")))
 			case "eval.Eval(PolicyToNode)", "Validator.Policy", "Validator.Request":
@@ -1182,6 +1210,7 @@ func c19Worker(c *vh.Ctx) {
 		twins = append(twins, twin{seed, c19Reference(ops, fx), fx})
 	}
 	vrng := rand.New(rand.NewSource(c.Seed*31 + 5))
+	dynFirst := len(c19BaseOps()) // index of cedar.Authorize(dynamic operands); the two ops after it authorize as well
 	for v := 0; v < volleys && time.Since(c.Start) < budget/2; v++ {
 		tw := twins[v%nSeeds]
 		G := []int{8, 32}[v%2]
@@ -1193,18 +1222,35 @@ func c19Worker(c *vh.Ctx) {
 			hot = []c19Pick{{0, vrng.Intn(len(f.reqs))}, {3, vrng.Intn(len(f.breqs))}, {4, 0}, {5, 0}}[(v/4)%4]
 		}
 		mixes := make([][]c19Pick, G)
+		spread := v%4 == 1 || v%4 == 2
 		for g := range mixes {
-			if g%2 == 0 {
+			switch {
+			case spread:
+				// spread volley: every goroutine authorizes against the SAME compiled policies (the dynamic-operand
+				// workload) with a DIFFERENT request, a few calls in a row: a node that keeps anything between calls
+				// hands one request's value to another
+				op := dynFirst + (v/4+g%3)%3
+				for i := 0; i < 4; i++ {
+					mixes[g] = append(mixes[g], c19Pick{op, (g*5 + i*3 + v) % len(f.dyn.reqs)})
+				}
+			case g%2 == 0:
 				mixes[g] = []c19Pick{hot}
-			} else {
+			default:
 				mixes[g] = []c19Pick{tw.ref.all[vrng.Intn(len(tw.ref.all))]}
 			}
-			c.Count(fmt.Sprintf("volley/%d/%d/%d", v%nSeeds, mixes[g][0].op, mixes[g][0].k), true)
-			c.Dist("concurrent:" + ops[mixes[g][0].op].name)
+			for _, pk := range mixes[g] {
+				c.Count(fmt.Sprintf("volley/%d/%d/%d", v%nSeeds, pk.op, pk.k), true)
+				c.Dist("concurrent:" + ops[pk.op].name)
+			}
 		}
 		bads := c19Concurrent(ops, f, mixes, c.Seed+int64(v), tw.ref)
-		c.Res.OracleChecks += G
-		c.Dist("volley(fresh fixture, one call per goroutine)")
+		if spread {
+			c.Res.OracleChecks += 4 * G
+			c.Dist("volley(fresh fixture, spread: same compiled policies, a different request per goroutine)")
+		} else {
+			c.Res.OracleChecks += G
+			c.Dist("volley(fresh fixture, one call per goroutine)")
+		}
 		report(f, bads, "volley", v, G, mixes)
 		mutated(f, tw.fx, before, "volley", v, G, mixes[0])
 	}
@@ -1245,6 +1291,9 @@ func c19Worker(c *vh.Ctx) {
 			// make sure the heavy shared readers all overlap: every goroutine has authorize / batch / set marshal
 			// (indexes into c19Ops: 0 cedar.Authorize, 3 batch.Authorize, 4/5 PolicySet.MarshalCedar/MarshalJSON)
 			mix[0], mix[1], mix[2] = c19Pick{0, grng.Intn(len(f.reqs))}, c19Pick{3, grng.Intn(len(f.breqs))}, c19Pick{4 + grng.Intn(2), 0}
+			// … and the dynamic-operand workload with a request of its own
+			dynFirst := len(c19BaseOps())
+			mix[3], mix[4] = c19Pick{dynFirst, (g*3 + round) % len(f.dyn.reqs)}, c19Pick{dynFirst + 1 + grng.Intn(2), grng.Intn(len(f.dyn.reqs))}
 			grng.Shuffle(len(mix), func(i, j int) { mix[i], mix[j] = mix[j], mix[i] })
 			mixes[g] = mix
 			for _, pk := range mix {
@@ -1325,7 +1374,18 @@ func c19RaceBinary(c *vh.Ctx) (string, string) {
 	}
 	defer os.RemoveAll(tmp)
 	out := filepath.Join(tmp, "vh-race")
-	cmd := exec.Command("go", "build", "-race", "-tags", "verif", "-o", out, "./cmd/vh")
+	args := []string{"build", "-race", "-tags", "verif", "-o", out}
+	if repo := os.Getenv("VERIF_REPO"); repo != "" && repo != "/repo" {
+		// a run against another checkout (tools/seedrun.sh): `check` has written an alternate go.mod whose replace
+		// directive points there; without it the race worker would be built against /repo and search the wrong tree
+		alt := filepath.Join(harness, ".alt.go.mod")
+		if b, err := os.ReadFile(alt); err == nil && strings.Contains(string(b), "=> "+repo) {
+			args = append(args, "-modfile", alt)
+		} else {
+			return "", "VERIF_REPO=" + repo + " but " + alt + " does not point there"
+		}
+	}
+	cmd := exec.Command("go", append(args, "./cmd/vh")...)
 	cmd.Dir = harness
 	env := []string{}
 	for _, e := range os.Environ() {
@@ -1487,6 +1547,7 @@ func runC19(c *vh.Ctx) {
 	c.Res.Rule = "read-only API calls (cedar.Authorize on PolicySet and PolicyMap, PolicySet.IsAuthorized, batch.Authorize with variables/ignores, PolicySet/PolicyList/Policy MarshalCedar+MarshalJSON, Policy.AST/Annotations/Effect/Position, PolicySet.Map/All/Get, Value MarshalCedar/String/MarshalJSON/ExplicitMarshalJSON/Equal/hash, Set.Slice/All/Iterate/Len/Contains, Record.Map/All/Keys/Values/Get, EntityMap.MarshalJSON/Get/Clone, Entity.MarshalJSON/Equal, eval.Eval, eval.PartialPolicy, Validator.Policy/Entities/Entity/Request) on generated policy sets, entity maps, requests and values: " +
 		"(a) sequential: a deep snapshot of all inputs (reflection dump of the whole object graph incl. unexported fields and spare slice capacity, harness encoders, hashes, marshalled bytes) is identical before and after every call, and mutating every returned slice/map/byte slice/policy copy leaves the originals unchanged; " +
 		"(b) concurrent (second binary built with -race): volleys (fresh fixture, G in {8,32} goroutines released together, one library call each, half of them the same call) and long shuffled op mixes with random Gosched on ONE shared fixture (cold rounds: first calls concurrent, reference from a twin fixture; warm rounds), only library calls inside the goroutines; every result equals the sequential result, snapshot identical before/after, no race report. " +
+		"(c) the dynamic-operand workload (c19_dyn.go) in (a) and (b): one policy per extension function x {arguments from value-typed request fields, arguments constructed in place from request strings} and per evaluator node kind (set / record literals, like, in, is, is..in, has, hasTag / getTag, contains*, isEmpty, arithmetic, comparisons, &&, ||, if, access), ALL over non-constant operands, each compared with a pivot so that about half of 16 requests with pairwise different operand values satisfy it; coverage cross-checked against the extension table and the ToEval arms extracted from the source (class workload-gap); spread volleys: G goroutines authorize against the SAME compiled policies, each with a DIFFERENT request, four calls in a row. " +
 		"evaluation = one call; distinct = distinct (fixture, operation, parameter); all are non-trivial (each call reads shared inputs)"
 	intens := os.Getenv("VERIF_INTENSIFY") != ""
 	// (a)
@@ -1498,6 +1559,13 @@ func runC19(c *vh.Ctx) {
 		f := c19NewFixture(c.Rng, c.N(10, 24), c.N(6, 12), c.N(26, 52))
 		if f.vStrict == nil && round == 0 {
 			c.Res.Notes = append(c.Res.Notes, "schema did not build: validator calls not exercised")
+		}
+		if round == 0 {
+			if gaps := c19WorkloadGaps(c, f.dyn); len(gaps) > 0 {
+				c.Report(vh.Finding{Class: "workload-gap", What: "the dynamic-operand workload does not apply these evaluator node kinds / extension functions (as extracted from the source by factgen) to non-constant operands: " + strings.Join(gaps, ", "),
+					Check: "oracle", Op: "dynamic-workload", Input: map[string]any{"missing": gaps}})
+			}
+			c.Res.Notes = append(c.Res.Notes, fmt.Sprintf("dynamic-operand workload: %d policies (every extension function x {request fields, constructed in place}, every evaluator node kind) x %d requests with pairwise different operand values", len(f.dyn.pols), len(f.dyn.reqs)))
 		}
 		c19Immutability(c, f, round)
 		c19Aliasing(c, f, round)
